@@ -57,7 +57,7 @@ enga_prop!(C03, "C03", profiles = CHECKED,
     assumptions = COMMON_ASSUME.to_vec());
 
 enga_prop!(C04A, "C04", profiles = BOTH_PROFILES,
-    profile = { let mut p = Profile::base(); p.huge = true; p.w_fill = 8; p.w_aligned = 30; p.w_typed = 20; p.w_reopen = 0; p },
+    profile = { let mut p = Profile::base(); p.huge = true; p.w_fill = 8; p.w_aligned = 30; p.w_typed = 20; p.w_reopen = 2; p.reopen_modes = &[(2, 0), (2, 2), (1, 3), (1, 1)]; p },
     mode = Mode::default(),
     nontrivial = |c| c.contains("huge-request") || c.contains("alloc-failed-full"),
     rule = "Engine A histories with boundary-dense huge sizes (u32::MAX-k, u32::MAX-allocated+-d, 2^31+-d, capacity+-d, remaining+-d, random u32) for bytes and extra, every type, on every reachable state, under an overflow-checked and an unchecked build (same seeds). Oracle: no panic, no signal (worker processes supervised), Ok => in-arena range with capacity <= arena capacity + C01/C03 predicates, Err => InsufficientSpace/ReadOnly and allocated/discarded/remaining/free list unchanged. Non-trivial = a request that exceeds remaining() or whose end would pass 2^32",
@@ -97,7 +97,7 @@ enga_prop!(C18, "C18", profiles = CHECKED,
     assumptions = { let mut v = COMMON_ASSUME.to_vec(); v.push("truncate is only called while refs()==1 and no handle object exists (it re-creates the backing store)"); v });
 
 enga_prop!(C20, "C20", profiles = CHECKED,
-    profile = { let mut p = Profile::base(); p.caps = SMALL_CAPS; p.w_incdisc = 8; p.w_minseg = 6; p.w_discard = 8; p.w_fill = 10; p.w_drop = 45; p.w_dealloc = 8; p.w_detach = 8; p.w_clear = 1; p },
+    profile = { let mut p = Profile::base(); p.caps = SMALL_CAPS; p.w_incdisc = 8; p.w_minseg = 6; p.w_discard = 8; p.w_fill = 10; p.w_drop = 45; p.w_dealloc = 8; p.w_detach = 8; p.w_clear = 1; p.w_reopen = 2; p.reopen_modes = &[(2, 0), (2, 2), (1, 3), (1, 1)]; p },
     mode = Mode::default(),
     nontrivial = |c| c.contains("discard-nonempty") || (c.contains("release-too-small") && c.contains("slow-path")) || c.contains("release-discarded"),
     rule = "Engine A 'discard' histories (frees of every size class, increase_discarded, set_minimum_segment_size, discard_freelist, clear). Per step: discarded() never decreases except through clear; increase_discarded(n) => +n; Freelist::None non-top release => +size; release producing no node => +size and the range is never handed out again; discard_freelist returns the sum of the size fields, adds exactly that, empties the list. Non-trivial = discard_freelist on a non-empty list, or a too-small release in a history that later used the slow path, or a Freelist::None non-top release",
